@@ -106,6 +106,15 @@ def r2(ctx, cfg):
                 d = dict(inner[2])
                 raw_ev, raw_dt = d.get("events", ev), d.get("data", dt)
                 ev, dt = peel(raw_ev), peel(raw_dt)
+                # (`r.data.take()`: the value itself, moved out of the response - which gets the reply's data right after)
+                if dt[0] == "call" and dt[1] == "std::option::Option::take" and len(dt[2]) == 1:
+                    x = dt[2][0]
+                    while x[0] in ("vp", "upd"):
+                        if x[0] == "upd" and not all(p0 and p0[0] == "&mut" and v0[0] == "mutby" and v0[1] == "std::option::Option::take" for p0, v0 in x[2]):
+                            break
+                        x = x[1] if x[0] == "upd" else x[2]
+                    raw_dt = x
+                    dt = peel(x)
                 # (as they are: nothing written to them, nothing filtered / sorted / truncated in place on the way)
                 ok_ev = ev[0] == "field" and ev[2] == "events" and submsg._is_ok_outcome(ev[1]) and _no_updates(ev[1]) and not contains(raw_ev, lambda x: x[0] == "upd")
                 ok_dt = dt[0] == "field" and dt[2] == "data" and submsg._is_ok_outcome(dt[1]) and _no_updates(dt[1]) and not contains(raw_dt, lambda x: x[0] == "upd")
